@@ -6,7 +6,7 @@ import ast
 from sa.astx import NotConst, call_attr, call_name, const_eval, lincmp, src, walk_local
 from sa.selftest import Mutant, Silent
 from sa.source import AnalysisError
-from sa.props._lib_j import leaf_values, local_defs, rsrc, body_always_entered, normalise, run_sections, all_paths, asserted_is, edge_asserts, is_self_attr, no_exc, node_calls, normal_exits, params, resolve
+from sa.props._lib_j import leaf_values, local_defs, rsrc, body_always_entered, normalise, run_sections, all_paths, mini_call, MiniStop, asserted_is, edge_asserts, is_self_attr, no_exc, node_calls, normal_exits, params, resolve
 
 PROPERTY = "C53"
 LOG = "python/logfile.py"
@@ -27,7 +27,9 @@ EXPLANATION = (
     "Every anchor function is also checked to be entered on every call (no memoising/wrapping decorator, duplicate definition or rebinding). "
     "Methods: every clause is decided structurally; the i -> i+1 clause is symbolic (same name format, index difference 1 for every i), no value is plugged in. "
 )
-RULE_KINDS = {"*": "structural"}     # sorted/reversed typestate over all CFG paths, dominance, symbolic file-name forms (index difference), normalised comparisons
+RULE_KINDS = {"*": "structural",
+              "rotate/evaluated-outcome": "bounded"}  # second layer under order/shift/retention/sequence: rotate() interpreted on every subset of P.1..P.5 x 6 limits
+# "*":    # sorted/reversed typestate over all CFG paths, dominance, symbolic file-name forms (index difference), normalised comparisons
 ASSUMPTIONS = [
     "the rules read a normalised view of the anchored modules (sa/props/_lib_j.Normaliser): private helpers expanded at their call sites, module constants and single-assignment pure temporaries substituted, loops over constant tuples unrolled; evaluation order inside one statement is not modelled",
    "os.rename is atomic; glob returns every rotated file", "LogFile is used by one thread at a time (threadable.synchronize)"]
@@ -159,6 +161,7 @@ def _s_listlogs(ctx, S):
                     return None
                 out += sub
             out += [c.args[0] for n, c in node_calls(g, lambda c: call_name(c) == e.id + ".append" and c.args)]
+            out += [c.args[1] for n, c in node_calls(g, lambda c: _is_insort(c) and src(c.args[0]) == e.id)]
             return out
         return None
 
@@ -212,7 +215,13 @@ def _s_listlogs(ctx, S):
             w = g.must_precede(sorts, [x], exc=False)
             late = [m for m in muts if any(g.path([s_], [m], edge_ok=no_exc, strict=True) for s_ in sorts)]
             by_def = [d for d, _, _ in leaf_values(f, v) if sorted_call(d)]
-            if not (bool(sorts) and w is None and not late) and not by_def:
+            # a list that starts empty and only ever grows through bisect.insort() is ascending at every point
+            ins = [n for n, c in node_calls(g, lambda c: _is_insort(c) and src(c.args[0]) == res)]
+            defs_ = [d for d, _, _ in leaf_values(f, v)]
+            by_insort = bool(ins) and not muts and not sorts and bool(defs_) and all(isinstance(d, ast.List) and not d.elts for d in defs_) and \
+                not any(isinstance(t, ast.Subscript) and src(t.value) == res for a in walk_local(f) if isinstance(a, (ast.Assign, ast.AugAssign, ast.Delete))
+                        for t in (a.targets if not isinstance(a, ast.AugAssign) else [a.target]))
+            if not (bool(sorts) and w is None and not late) and not by_def and not by_insort:
                 asc = False
             src_list = v
         else:
@@ -241,6 +250,139 @@ def _s_listlogs(ctx, S):
     ctx.check(bool(ints), "order/listLogs-identifier-is-last-component", q, "no int(<component>) conversion found for the identifiers")
     globs = [c for c in ast.walk(f) if isinstance(c, ast.Call) and call_name(c) == "glob.glob"]
     ctx.check(len(globs) == 1 and _render(globs[0].args[0], {}) == "P.*", "order/listLogs-sees-every-rotated-file", q, "listLogs() does not glob '<path>.*'")
+
+
+def _is_insort(c):
+    return call_name(c) in ("bisect.insort", "bisect.insort_right", "bisect.insort_left", "insort", "insort_right", "insort_left") and len(c.args) == 2 and not c.keywords
+
+
+class _Disk:
+    """what rotate() is run against when it is evaluated: a set of file names plus the journal of what was done to them"""
+    _mini_symbolic = True
+
+    def __init__(self, names):
+        self.names = set(names)
+        self.content = {n: n for n in names}        # every file "contains" its original name
+        self.journal = []
+        self.problems = []
+        self.W_OK = 2
+        self.R_OK = 4
+        self.F_OK = 0
+        self.path = self
+
+    def access(self, *a):
+        return True
+
+    def exists(self, p):
+        return p in self.names
+
+    def remove(self, p):
+        if p not in self.names:
+            raise OSError(p)
+        self.journal.append(("remove", p))
+        self.names.discard(p)
+        self.content.pop(p, None)
+
+    unlink = remove
+
+    def rename(self, a, b):
+        if a not in self.names:
+            raise OSError(a)
+        if b in self.names:
+            self.problems.append(f"rename {a} -> {b} overwrites the existing {b}")
+        self.journal.append(("rename", a, b))
+        self.names.discard(a)
+        self.names.add(b)
+        self.content[b] = self.content.pop(a)
+
+    replace = rename
+
+
+class _Handle:
+    _mini_symbolic = True
+
+    def __init__(self, disk):
+        self.disk = disk
+
+    def close(self):
+        self.disk.journal.append(("close",))
+
+
+class _Log:
+    _mini_symbolic = True
+
+    def __init__(self, disk, ids, limit):
+        self.path = "P"
+        self.directory = "D"
+        self.name = "P"
+        self.maxRotatedFiles = limit
+        self._file = _Handle(disk)
+        self._ids = ids
+        self._disk = disk
+
+    def listLogs(self):
+        return sorted(self._ids)
+
+    def _openFile(self):
+        self._disk.journal.append(("open",))
+        self._disk.names.add("P")
+        self._disk.content["P"] = "new"
+
+
+def _evaluate_rotate(f, ids, limit):
+    """run rotate() on a directory holding P and P.<i> for i in ids; returns (problems, MiniStop reason or None)"""
+    disk = _Disk(["P"] + [f"P.{i}" for i in ids])
+    log = _Log(disk, ids, limit)
+    try:
+        mini_call(f, {params(f)[0]: log}, budget=4000, builtins={"os": disk, "sorted": sorted, "int": int, "min": min, "max": max, "range": range})
+    except MiniStop as e:
+        return None, str(e)
+    except Exception as e:   # an exception escaping rotate() on a fully writable directory
+        return [f"rotate() raises {e}"], None
+    problems = list(disk.problems)
+    want = {"P": "new", "P.1": "P"}
+    for i in ids:
+        if limit is None or i < limit:
+            want[f"P.{i + 1}"] = f"P.{i}"
+    if disk.content != want:
+        lost = sorted(v for v in want.values() if v not in disk.content.values())
+        extra = sorted(k for k in disk.content if k not in want)
+        wrong = sorted(k for k in want if k in disk.content and disk.content[k] != want[k])
+        problems.append("afterwards " + "; ".join(x for x in (f"the content of {lost} is gone" if lost else "", f"{extra} should have been removed" if extra else "",
+                                                          f"{wrong} hold the wrong generation" if wrong else "") if x))
+    j = [x[0] if x[0] != "rename" or x[1] != "P" else "current" for x in disk.journal]
+    if "current" in j:
+        k = j.index("current")
+        if "close" not in j[:k]:
+            problems.append("the current file is renamed before it is closed")
+        if "open" not in j[k:]:
+            problems.append("no new file is opened after the current one was renamed")
+        if any(x in ("rename", "remove") for x in j[k:]):
+            problems.append("older files are shifted after the current file took path.1")
+    else:
+        problems.append("the current file is never renamed")
+    return problems, None
+
+
+def _s_rotate_evaluated(ctx, S):
+    # second layer, independent of how the loops are written: rotate() is interpreted on every directory holding a subset of P.1 .. P.5 with every limit
+    f = ctx.func(LOG, "LogFile.rotate")
+    q = QL + ".rotate"
+    import itertools
+    bad = None
+    n = 0
+    for k in range(0, 6):
+        for ids in itertools.combinations(range(1, 6), k):
+            for limit in (None, 1, 2, 3, 4, 6):
+                problems, stop = _evaluate_rotate(f, list(ids), limit)
+                if stop is not None:
+                    raise AnalysisError(f"rotate() cannot be evaluated ({stop})")
+                n += 1
+                if problems and bad is None:
+                    bad = (list(ids), limit, problems)
+    ctx.check(bad is None, "rotate/evaluated-outcome", q,
+              "evaluating rotate() on a directory with rotated files %s and maxRotatedFiles=%s: %s" % (bad[0], bad[1], "; ".join(bad[2])) if bad else "",
+              detail=f"bounded: {n} directories (every subset of P.1..P.5 x maxRotatedFiles in None,1,2,3,4,6); every other method stubbed")
 
 
 def _s_rotate(ctx, S):
@@ -302,7 +444,12 @@ def _s_rotate(ctx, S):
         ctx.violation("shift/every-file-moved-or-removed", ctx.construct(q, "loop body"), "rotate() does not shift the older files at all: renaming the current "
                       "file to path.1 overwrites the previous path.1")
         return
-    ctx.need(len(fors) + len(whiles) == 1, "single shifting loop in LogFile.rotate")
+    if len(fors) + len(whiles) != 1:
+        # the shift is spread over several loops (e.g. one that drops the surplus files, one that renames the rest): the per-iteration clauses are not read
+        # from this shape; what does not depend on the loop shape is still decided below, the rest is left to rotate/evaluated-outcome
+        ctx.note(f"order/shift/retention clauses: {len(fors) + len(whiles)} loops in rotate(), per-iteration shape not read; left to the bounded rule rotate/evaluated-outcome")
+        _rotate_sequence(ctx, f, g, q, {n.id for n in g.nodes if g.reachable(n.id) and g.path([d for d, l in g.succ[n.id] if l not in ("exc", "raise")], [n.id], edge_ok=no_exc) is not None}, None)
+        return
     if fors:
         lp = fors[0]
         head, var = lp.id, src(lp.ast.target)
@@ -371,6 +518,13 @@ def _s_rotate(ctx, S):
             ctx.check(g.path([n], [rn], avoid=[head], edge_ok=no_exc) is None and g.path([rn], [n], avoid=[head], edge_ok=no_exc) is None,
                       "shift/every-file-moved-or-removed", ctx.construct(q, "rename xor remove"), "a file is both removed and renamed in one iteration")
 
+    _rotate_sequence(ctx, f, g, q, body_nodes, head)
+
+
+def _rotate_sequence(ctx, f, g, q, body_nodes, head):
+    """close -> rename(current, path.1) -> reopen, after the shift, and nothing destructive without write access; ``head`` is None when the loop shape
+    was not read (then the shift-before-current ordering is judged against every loop node)"""
+    acts = [n for n, c in node_calls(g, lambda c: call_name(c) in ("os.rename", "os.replace", "os.remove", "os.unlink")) if n in body_nodes]
     closes = [n for n, c in node_calls(g, lambda c: call_name(c) == "self._file.close")]
     finals = [(n, c) for n, c in node_calls(g, lambda c: call_name(c) in ("os.rename", "os.replace")) if n not in body_nodes]
     opens = [n for n, c in node_calls(g, lambda c: call_name(c) == "self._openFile")]
@@ -385,8 +539,9 @@ def _s_rotate(ctx, S):
         w = g.must_pass([n], opens, exc=False)
         ctx.check(w is None, "sequence/close-rename-open", ctx.construct(q, "reopen after rename"), "after the rename rotate() can return without opening a new file: later writes are lost",
                   witness=g.describe(w))
-        ctx.check(g.path([n], [head], edge_ok=no_exc) is None and g.path([head], [n], edge_ok=no_exc) is not None and
-                  g.must_precede([head], [n], exc=False) is None, "sequence/shift-before-current", ctx.construct(q, "shift loop before final rename"),
+        heads = [head] if head is not None else acts
+        ctx.check(g.path([n], heads, edge_ok=no_exc) is None and g.path(heads, [n], edge_ok=no_exc) is not None and
+                  (head is None or g.must_precede([head], [n], exc=False) is None), "sequence/shift-before-current", ctx.construct(q, "shift loop before final rename"),
                   "the current file is renamed to path.1 before the older files were shifted: path.1 is overwritten")
     # nothing is touched unless directory and file are writable
     access = {"os.access(self.directory, os.W_OK)", "os.access(self.path, os.W_OK)"}
@@ -622,7 +777,7 @@ def _s_body(ctx, S):
 
 def check(ctx):
     normalise(ctx, {LOG: ["_openFile"]}, scopes={LOG: ["BaseLogFile", "LogFile"]})
-    run_sections(ctx, [("listLogs", _s_listlogs), ("rotate", _s_rotate), ("BaseLogFile.write", _s_write), ("shouldRotate", _s_should_rotate), ("size", _s_size),
+    run_sections(ctx, [("listLogs", _s_listlogs), ("rotate", _s_rotate), ("rotate-evaluated", _s_rotate_evaluated), ("BaseLogFile.write", _s_write), ("shouldRotate", _s_should_rotate), ("size", _s_size),
                        ("open", _s_open), ("body-entered", _s_body)])
 
 
